@@ -138,7 +138,13 @@ def gen_norm_building(rng):
                     f = Fraction(1, 2 ** rng.choice([12, 16, 20]))
                     oc[t], orf[t] = oc[t] * f, orf[t] * f
             b.tags.add("aux_tiny_output")
-        b.add("SALIDA", id=i, service="CAL", values=oc)
+        if rng.random() < 0.4:
+            # several output lines for one service (several circuits of one system): what counts is their sum
+            b.add("SALIDA", id=i, service="CAL", values=[x / 4 for x in oc])
+            b.add("SALIDA", id=i, service="CAL", values=[x * 3 / 4 for x in oc])
+            b.tags.add("aux_split_output")
+        else:
+            b.add("SALIDA", id=i, service="CAL", values=oc)
         b.add("SALIDA", id=i, service="REF", values=orf)
         b.add("AUX", id=i, values=gen.vec(rng, n, hi=64 * 20, pzero=0.1))
         b.tags.add("aux_heat_cool")
